@@ -284,6 +284,9 @@ def rspawn_outputs():
             b"r" + z + b"r" + z + K + z, b"r" + z + h + z + K + z, h + z + b"r" + z + K + z, b"r" + z + Z + z + K + z,
             Z + z + b"r" + z + K + z, b"r" + z + b"K" + b"y" * 70000 + z, s + z + b"K" + b"y" * 70000 + z,
             b"q" * 70000, bytes(range(1, 256)) * 3 + z + K + z,
+            # long but well-formed temporary reports (qmail-remote keeps up to 5000 bytes of the server's text): still temporary
+            b"r" + z + b"Z" + b"t" * 2990 + b"\n" + z, b"r" + z + b"Z" + b"t" * 3500 + b"\n" + z, b"r" + z + b"Z" + b"t" * 6000 + b"\n" + z,
+            b"Z" + b"t" * 4000 + b"\n" + z, s + z + b"Z" + b"t" * 4000 + b"\n" + z, b"s" + b"u" * 4000 + b"\n" + z + Z + z,
             # message report not NUL-terminated after a terminated recipient report
             b"r" + z + K, b"r" + z + Z, b"r" + z + b"K", b"r" + z + b"K" + b"x" * 125, b"r" + z + b"K" + b"x" * 126]
     return outs
